@@ -147,7 +147,9 @@ func (d *Decoder) readPayload() (payload []byte, n int, err error) {
 	if d.compression { // Decoder expects compressed payload
 		// buf contains: claimedUncompressedSize + (compressed packet id & data)
 		buf := bytes.NewBuffer(payload)
-		claimedUncompressedSize, n, err := util.ReadVarIntReturnN(buf)
+		// n stays the number of bytes read from the wire for this frame (PacketContext.BytesRead,
+		// which the packet limiter accounts); do not shadow it with the size of this varint.
+		claimedUncompressedSize, _, err := util.ReadVarIntReturnN(buf)
 		if err != nil {
 			return nil, n, fmt.Errorf("error reading claimed uncompressed size varint: %w", err)
 		}
